@@ -97,6 +97,14 @@ Definition sort_filter_by (cs : bool) (l : list val) : list val := fold_left (fu
 Definition insert_sorted := insert_sorted_by false.
 Definition sort_filter (l : list val) : list val := sort_filter_by false l.
 
+(* str.replace for a non-empty pattern *)
+Fixpoint replace_all (pat rep s : string) (fuel : nat) : string :=
+  match fuel with
+  | 0 => s
+  | S f => if andb (negb (String.eqb pat "")) (String.prefix pat s) then (rep ++ replace_all pat rep (substring (String.length pat) (String.length s) s) f)%string
+           else match s with EmptyString => EmptyString | String c r => String c (replace_all pat rep r f) end
+  end.
+
 Definition attr_of (v : val) (a : string) : val :=
   match v with
   | VObj fs => match assoc a fs with Some x => x | None => VUndef end
@@ -185,6 +193,11 @@ Section Eval.
         else if String.eqb name "sort" then
           VList (sort_filter_by (match kw "case_sensitive" kwargs with Some c => truthy c | None => false end) (as_list v))
         else if String.eqb name "list" then VList (as_list v)
+        else if String.eqb name "replace" then
+          match evals args with
+          | VStr a :: VStr b :: _ => VStr (replace_all a b (to_str v) (S (String.length (to_str v))))
+          | _ => VUndef
+          end
         else VUndef
     | ETest name x args =>
         let v := eval st x in
@@ -250,8 +263,9 @@ Section Eval.
     | SSetNs n a e =>
         (mkst (scope st) (upd n (upd a (eval st e) (match assoc n (nss st) with Some fs => fs | None => [] end)) (nss st)), "")
     | SCallBlock _ body => execs body st
+    | SFiltered name args body => let '(st1, o) := execs body st in (st1, to_str (eval st1 (EFilter name (EStr o) args [])))
     | SBlock _ body => execs body st
-    | SMacro _ _ _ | SExtends _ | SOther _ => (st, "")
+    | SMacro _ _ _ _ | SExtends _ | SOther _ => (st, "")
     end.
 
   Definition execs : list stmt -> state -> state * string :=
